@@ -1040,7 +1040,7 @@ def o_C19b(sc):
             return 'C19 SpikeTrain.sort() gives %s' % list(w.spikes)
     # 0/1 time series: one train per row (all-zero rows included), spikes at start + (k+1)*bin
     nrow = 1 + len(sc['values']) % 4
-    ncol = 2 + sum(len(v) for v in sc['values']) % 5
+    ncol = 1 + sum(len(v) for v in sc["values"]) % 6          # 1 … 6 samples per row (a single column included)
     bits = [[(len(sc['values'][(r + c) % len(sc['values'])]) + r * c + c) % 3 == 0 for c in range(ncol)] for r in range(nrow)]
     if nrow > 1:
         bits[-1] = [False] * ncol                       # a silent last row
